@@ -2,16 +2,18 @@ import SkyllhModel.Proto
 import SkyllhModel.Model.Livetime
 open Proto Livetime
 
-/-  requests (floats as IEEE bit patterns):
+/-  requests (floats as IEEE bit patterns; `N` = Python `None`):
       ison    <edges> <t>
-      between <edges> <t0> <t1>      -> idx:<flat|ERR> spec:<flat>
+      between <edges> <t0> <t1>          -> idx:<flat|ERR> spec:<flat>
       upto    <edges> <t>
       draw    <edges> <u>
-      drawwin <edges> <t0> <t1> <u>
-      mask    <times> <t0> <t1>
+      drawwin <edges> <tmin|N> <tmax|N> <u>
+      subset  <edges> <times> <t0> <t1>  -> <mask> <flat> <livetime> | ERR
       integ   <edges>
 -/
 def pairs (s : String) : List (Float × Float) := unflat (pList pF s)
+
+def pOpt (s : String) : Option Float := if s == "N" then none else some (pF s)
 
 def answer (line : String) : String :=
   match tokens line with
@@ -20,7 +22,7 @@ def answer (line : String) : String :=
       let a := match betweenIdx (pairs es) (pF t0) (pF t1) with
         | some r => fListD fF (flat r)
         | none => "ERR"
-      let b := fListD fF (flat (betweenSpec (pairs es) (pF t0) (pF t1)))
+      let b := if pF t1 ≤ pF t0 then "-" else fListD fF (flat (betweenSpec (pairs es) (pF t0) (pF t1)))
       s!"idx:{a} spec:{b}"
   | ["upto", es, t] => match upto (pairs es) (pF t) with
       | some x => fF x
@@ -28,14 +30,14 @@ def answer (line : String) : String :=
   | ["draw", es, u] => match drawOn (pairs es) (pF u) with
       | some x => fF x
       | none => "ERR"
-  | ["drawwin", es, t0, t1, u] =>
-      -- draw_ontimes(t_min, t_max): restrict with the index arithmetic, then inverse CDF
-      match betweenIdx (pairs es) (pF t0) (pF t1) with
-      | some r => (match drawOn r (pF u) with
-          | some x => fF x
-          | none => "ERR")
+  | ["drawwin", es, tmin, tmax, u] =>
+      match drawWin (pairs es) (pOpt tmin) (pOpt tmax) (pF u) with
+      | some x => fF x
       | none => "ERR"
-  | ["mask", ts, t0, t1] => fListD fB (subsetMask (pList pF ts) (pF t0) (pF t1))
+  | ["subset", es, ts, t0, t1] =>
+      match dataSubset (pairs es) (pList pF ts) (pF t0) (pF t1) with
+      | some (m, r, lt) => s!"{fListD fB m} {fListD fF (flat r)} {fF lt}"
+      | none => "ERR"
   | ["integ", es] => fB (integrity (pList pF es))
   | _ => "bad-op"
 
